@@ -105,6 +105,30 @@ where
     FrameFn: FnOnce(&str, u32) -> T2 + Sync,
     T2: Future<Output = Result<FrameIO, Error>>,
 {
+    let ret = h11c_handshake_inner(ctx.clone(), queue, create_frames).await;
+    // the connection ends here on error: its record needs a terminal state and the reason
+    let failure = ret
+        .as_ref()
+        .err()
+        .map(|e| format!("{} cause: {:?}", e, e.cause));
+    if let Some(failure) = failure {
+        ctx.write()
+            .await
+            .set_state(crate::context::ContextState::ErrorOccured)
+            .set_error(failure);
+    }
+    ret
+}
+
+async fn h11c_handshake_inner<FrameFn, T2>(
+    ctx: ContextRef,
+    queue: Sender<ContextRef>,
+    create_frames: FrameFn,
+) -> Result<(), Error>
+where
+    FrameFn: FnOnce(&str, u32) -> T2 + Sync,
+    T2: Future<Output = Result<FrameIO, Error>>,
+{
     // read the request without holding the connection's lock: the client decides how long this takes,
     // and everything that inspects the connection meanwhile (e.g. the /live API) would wait with it
     let mut socket = ctx.write().await.take_client_stream();
